@@ -380,7 +380,7 @@ class TopKMultilabelAccuracy(MulticlassAccuracy):
         self: TTopKMultilabelAccuracy,
         *,
         criteria: str = "exact_match",
-        k: int = 1,
+        k: int = 2,
         device: torch.device | None = None,
     ) -> None:
         super().__init__(device=device)
